@@ -563,6 +563,10 @@ class Ctx:
             return OrderedDone([self.futobj[i] for i in got]), pending
         self.close("Stopping")
         self.open(("shutdown", []))
+        # a future nobody asked to cancel would keep the runner waiting for ever: its worker finishes it
+        stray = [self.fid(f) for f in fs if not f.done() and self.fid(f) not in self.cancel_calls]
+        if stray:
+            self.loop.call_soon(self.apply_async, "done", stray)
         done, pending = await real_asyncio.wait(fs, return_when=return_when)
         return done, pending
 
